@@ -94,6 +94,10 @@ class World(object):
             m[15] |= 0x0F
         if ini["tlv"] == "broken":
             m[16:24] = bytes([0xFE, 0, 0, 0, 0, 0, 0, 0])
+        elif ini["fmt"] or True:
+            # a small NDEF message behind the product's control TLV (so that factory defaults written over it show)
+            k = 16 + (5 if m[16] == 0x01 else 0)
+            m[k:k + 6] = bytes([0x03, 0x03, 0xD0, 0x00, 0x00, 0xFE])
         if ini["slock"]:
             m[10], m[11] = 0xFF, 0xFF
         self.pg = page_table(self.product)
@@ -115,6 +119,7 @@ class World(object):
             raise HarnessError("activation of %s gave %r" % (self.product, self.tag))
         self.clf.tag = self.tag
         self.events = []
+        self.base45 = self.sim.page(4) + self.sim.page(5)
         self.findings = []          # harness level observations: (key, what)
         self.clf.recording = True
 
@@ -347,7 +352,7 @@ class FakeClf(object):
             page = cmd[1]
             ok = rsp == b"\x0a"
             before = sim.log[-1][2] if len(sim.log) > nlog else sim.page(page)
-            if name == "format" and self.tag._ndef is not None:
+            if name == "format" and self.tag._ndef is not None and self.tag._ndef.is_writeable:
                 # Type2Tag._format on the NDEF it found: the writes of C03's base part; here only their confinement
                 lo, hi = 4, 4 + 2 * sim.sectors[0][14]
                 if not lo <= page < hi or page in (sim.dlock_page, sim.cfg, (sim.cfg or 0) + 1):
@@ -480,6 +485,12 @@ def run_op(w, o):
         w.unapplied = getattr(w, "unapplied", 0) + 1
     clf.op = None
     sim.cut_after = None
+    if name == "format":
+        # pages 4-5 after a format(): a change is the new baseline when it succeeded, damage when it did not
+        now = sim.page(4) + sim.page(5)
+        if res != "True" and now != w.base45:
+            w.user = "dflt"
+        w.base45 = now
     w.ev("Return", res=res, **w.projection())
     return res
 
@@ -701,7 +712,16 @@ def classify(tr, line, act, why):
                 if e["a"] == "Return":
                     out = e["res"]
                     break
-        return "%s:%s:%s:%s" % (cls, opn, "+".join(why[1]), out)
+        key = "%s:%s:%s:%s" % (cls, opn, "+".join(why[1]), out)
+        if opn == "format":
+            # on which kind of tag: the capability container and the TLV area as they were when format() began
+            prev = [e for e in tr["ev"][:line] if e["a"] == "Return"]
+            cc = prev[-1]["cc"] if prev else tr["init"]["cc"]
+            tlv_ok = tr["init"]["tlv"] == "ok" or (prev and prev[-1]["user"] == "dflt")
+            key += "@" + ("no-ndef-cc" if not tr["init"]["fmt"] else
+                          ("read-only-cc" if cc["lo"] else "cc-%s" % "".join(sorted(k for k in cc if cc[k]))) +
+                          (",tlv-ok" if tlv_ok else ",tlv-broken"))
+        return key
     what = act + ("-" + ev["c"] if act in ("Write", "Read") else "")
     return "%s:%s:conformance:%s-not-as-specified@%s" % (cls, opn, what, why[1] if len(why) > 1 else "?")
 
